@@ -128,9 +128,10 @@ func runC16(ctx *core.Ctx, unit int) {
 	case unit < nt:
 		sc := c16ThreadScenarios[unit/c16Shards]
 		threads, bound := 2, 3
-		if ctx.Thorough() && sc != "unshared+caching" {
-			// (the caching scenario's threads touch only their own caches: a third thread multiplies
-			// interleavings of independent events without adding a conflict; it stays at two threads)
+		if ctx.Thorough() && !strings.Contains(sc, "+vendored") && sc != "unshared+caching" {
+			// three threads for the four base scenarios; the vendored variants repeat two of them with other
+			// files, and the caching scenario's threads touch only their own caches (a third thread multiplies
+			// interleavings of independent events without adding a conflict): those stay at two threads
 			threads, bound = 3, 3
 		}
 		c16Discover()
